@@ -60,23 +60,27 @@ TEXT = {
         "level": "propagate_dependencies is proved to append exactly the callee's reference-with-arguments to the caller's invocation list and to extend the caller's dependency set by the callee and the callee's "
                  "recorded dependencies, changing no other memento. memento_run_local is proved to perform exactly one such propagation into the calling frame on every exit (hit, computed, exception result, re-raised "
                  "exception) and to restore the call stack; LocalRunnerBackend.batch_run is proved (loop invariant, any batch length) to propagate once per element, in element order, whichever branch serves it; "
-                 "dependencies recorded in a stored memento flow to the caller like freshly computed ones.",
-        "note": "Partial: equality with the real call tree of an arbitrary program is the stated induction lemma over these contracts; StackFrame/ResourceFunction provenance of resources is not covered yet. "
+                 "dependencies recorded in a stored memento flow to the caller like freshly computed ones. ResourceFunction.__call__ is proved to append the handle the wrapped function returns to the resources of the "
+                 "calling frame's memento, after the existing ones, and to change no other record (nothing when there is no calling frame or the wrapped function raises).",
+        "note": "Partial: equality with the real call tree of an arbitrary program is the stated induction lemma over these contracts; the wrapped resource function is opaque user code (assumed not to touch the call stack). "
                 "Dependency sets are compared by object identity of references.",
         "technique": "contract-based deductive verification: own VC generator over the real source + z3/cvc5",
     },
     "C15": {
         "level": "LocalRunnerBackend.batch_run is proved with a loop invariant over any batch length: the result list has one slot per element, slot j holds the outcome of element j (value, or the exception object "
-                 "for a failing element, including non-memoized and remote-call exceptions), at most one body call per element and none for elements already stored and readable.",
-        "note": "Partial: call_batch / map_over_range / call (base.py) are not under contract yet; 'at most once per distinct element' relies on memento_run_local's contract plus the assumption that bodies only add to the store.",
+                 "for a failing element, including non-memoized and remote-call exceptions), at most one body call per element and none for elements already stored and readable. MementoFunctionBase.call_batch is proved to hand the runner one reference per "
+                 "element of kwargs_list, in order, for this function, with no positional arguments and the element's keyword arguments, to return the runner's list slot by slot, and -- when asked to -- to raise "
+                 "the FIRST exception in it (and to return only exception-free lists).",
+        "note": "Partial: map_over_range / call (base.py) are not under contract; call_batch uses memento_run_batch through its contract (C16) and the documented interface of RunnerBackend.batch_run (one slot per reference); 'at most once per distinct element' relies on memento_run_local's contract plus the assumption that bodies only add to the store.",
         "technique": "contract-based deductive verification: own VC generator over the real source + z3/cvc5",
     },
     "C16": {
         "level": "memento_run_batch is proved for all inputs and call-stack shapes: under a calling frame with prevent_further_calls it raises RuntimeError before any runner is invoked; otherwise exactly one dispatch, "
                  "to the local runner iff force_local; the dispatched context carries the call's own context arguments when attached (also an empty dict) and otherwise the calling frame's, with the caller's correlation id; "
                  "the dispatched references are rebuilt with exactly those context arguments (same function, args, kwargs), so the argument hash includes them. memento_run_local is proved (C02) to pass the body only "
-                 "effective_kwargs.",
-        "note": "Partial: with_context_args / with_prevent_further_calls (base.py) and RecursiveContext.update are modelled (records), not proved; that effective_kwargs excludes the context arguments is C04's subject.",
+                 "effective_kwargs. with_context_args / with_prevent_further_calls are proved to give the clone a context that carries exactly the given context-argument dict / flag and is otherwise the original's, "
+                 "leaving the original function's context unchanged.",
+        "note": "Partial: RecursiveContext.update / InvocationContext.update_recursive are modelled (records), not proved, and clone_with is abstract (the proof is about the context handed to it); that effective_kwargs excludes the context arguments is C04's subject.",
         "technique": "contract-based deductive verification: own VC generator over the real source + z3/cvc5",
     },
     "C18": {
@@ -101,7 +105,8 @@ TEXT = {
                  "a change, version = the entry's); an entry of an older generation or a reporting rule always forces recomputation, a reporting rule additionally bumps the generation; explicitly versioned "
                  "functions and locked clusters leave everything untouched. MementoFunction.__init__ is proved to bump the generation by exactly one on every registration. did_change of the four rule kinds "
                  "is proved exact (undefined symbol: now defined; global variable: serialisation differs from the recorded one; plain function: resolves to a different object; memento function: no longer "
-                 "resolves to a memento function).",
+                 "resolves to a memento function). HashRule._visit_dependency is proved to leave, for a name that does not resolve yet, the rule that watches exactly where it will appear (so that defining the "
+                 "symbol later is reported).",
         "note": "Partial: coherence with a fresh process across a whole history is the stated lemma over these per-call contracts under environment assumption E (every in-process event that changes the "
                 "from-scratch version is a registration or makes a collected rule report change) -- E is not provable from the code. Assumed: _recompute_version returns the from-scratch version; within one call "
                 "rule answers do not change. In __init__ the function's own run-time asserts are taken as preconditions.",
@@ -113,9 +118,14 @@ TEXT = {
                  "among the function references nested in the caller's arguments / keyword arguments / context arguments -- and to return normally in every other case. MementoFunction.call and call_batch are "
                  "proved to validate before anything is dispatched on every path (the base-class dispatch has the validation as a precondition; a refused call dispatches nothing). "
                  "DependencyGraph.transitive_memento_fn_dependencies / direct_memento_fn_dependencies are proved to be exactly the stated filters of the collected rule list (memento rules other than the "
-                 "function itself; additionally first-level for the direct ones).",
-        "note": "Partial: exactness of the collected rule list w.r.t. the reference graph of an arbitrary program (list_dotted_names AST visitor, collect_transitive_dependencies traversal with cycle breaking and "
-                "package scope, df()/graph linking) is outside the verifier's subset and is NOT claimed; _extract_fn_ref_args (recursive walk) is an assumed summary.",
+                 "function itself; additionally first-level for the direct ones). The traversal that collects the rules is under contract too (real bodies): HashRule._visit_dependency is proved "
+                 "to resolve a dotted name left to right from the containing function's globals, to start the traversal of the rule of the FIRST resolvable prefix with this traversal's result set / root / "
+                 "package scope / blacklist, to raise DependencyNotFoundError exactly for a required name that ends without a rule, and to leave for an optional name that stops at something missing an "
+                 "undefined-symbol rule watching exactly the place where the name will appear; the collect_transitive_dependencies methods of memento-function and plain-function rules are proved (loop "
+                 "invariants, any number of names) not to descend into a rule already collected, otherwise to record it and visit every declared / detected name of its function once, from that function's "
+                 "globals, under its own name, marking dependencies of the root as direct, and to neither record nor look into a plain function outside the package scope.",
+        "note": "Partial: the AST visitor list_dotted_names and the strategy loop resolve_symbol / try_resolve are summarised by uninterpreted functions (assumed); df()/graph linking is not covered; "
+                "exactness w.r.t. the reference graph of an arbitrary program is the induction over these per-call contracts, not a machine-checked theorem; _extract_fn_ref_args (recursive walk) is an assumed summary.",
         "technique": "contract-based deductive verification: own VC generator over the real source + z3/cvc5",
     },
     "C12": {
@@ -186,8 +196,8 @@ TEXT = {
                  "removes the dependence), tuples and frozensets recursively through the function's own contract; hash_if_code_object is proved to render every non-code constant through it. The "
                  "environment salt is checked (syntactically, on the module constant) to be sha256(json.dumps(<dict of literals>, sort_keys=True)).",
         "note": "Partial: seed independence is checked on value terms (lists built by comprehensions / sorted carry their value) by substituting a second seed -- a relational argument encoded in one run; "
-                "the bag lemma and the repr value table are trusted. Uniqueness of rule keys and the order-independence of the recursive dependency traversal (collect_transitive_dependencies) are not "
-                "claimed; cross-process reuse follows only given the same collected rule set. One genuine defect found by this contract was repaired in /repo (D10).",
+                "the bag lemma and the repr value table are trusted. HashRule._visit_dependency is under contract here as well (what a name that does or does not resolve yet leaves in the result set: see C14); order-independence of the whole "
+                "recursive traversal is not a machine-checked theorem; cross-process reuse follows only given the same collected rule set. One genuine defect found by this contract was repaired in /repo (D10).",
         "technique": "contract-based deductive verification: own VC generator over the real source + z3/cvc5 (plus one syntactic obligation on a module constant)",
     },
 }
